@@ -484,6 +484,8 @@ def make_atom(head: str, *args) -> Rat:
         return mk_sum(*args)
     if head in REDUCERS:
         return mk_reduce(head, *args)
+    if head == 'gamma' and isinstance(args[1], Rat) and args[1] == args[2]:
+        return args[1]
     if head == 'el':
         base, idx = args
         if hasattr(base, 'element'):
@@ -617,3 +619,77 @@ def show(r: Rat) -> str:
     if r.d == Poly.const(1):
         return show_poly(r.n)
     return f"({show_poly(r.n)})/({show_poly(r.d)})"
+
+
+# --------------------------------------------------------------------------- affine invariance (no expansion blow-up)
+def _poly_total_derivative(p: Poly, aset) -> Poly:
+    """sum over atoms a in aset of d p / d a"""
+    out: Dict[Mono, Fraction] = {}
+    for m, c in p.t.items():
+        for j, (a, e) in enumerate(m):
+            if a in aset:
+                if e == 1:
+                    mm = m[:j] + m[j + 1:]
+                else:
+                    mm = m[:j] + ((a, e - 1),) + m[j + 1:]
+                out[mm] = out.get(mm, 0) + c * e
+    return Poly(out)
+
+
+def affine_invariant(r: Rat, is_var, _seen=None) -> Tuple[bool, str]:
+    """is r unchanged when every atom v with is_var(v) is replaced by c*v + d (c != 0)?
+    Decided without expanding the substitution: (1) every opaque atom's rational arguments are themselves invariant,
+    (2) numerator and denominator are homogeneous of the same degree in the variables (scale),
+    (3) N'*D == N*D' for the total derivative ' = sum_v d/dv (translation)."""
+    if _seen is None:
+        _seen = {}
+    vars_top = {a for a in r.atoms() if is_var(a)}
+    for a in r.atoms():
+        if a in vars_top:
+            continue
+        if a in _seen:
+            if not _seen[a]:
+                return False, f"opaque term {show_atom(a)[:120]} is not invariant"
+            continue
+        ok = True
+        why = ''
+        for q in _direct_rats(ATOMS.args(a)):
+            if any(is_var(b) for b in direct_atoms(q)):
+                ok, why = affine_invariant(q, is_var, _seen)
+                if not ok:
+                    break
+        _seen[a] = ok
+        if not ok:
+            return False, f"inside {show_atom(a)[:120]}: {why}"
+    if not vars_top:
+        return True, ''
+    degs_n = {sum(e for a, e in m if a in vars_top) for m in r.n.t}
+    degs_d = {sum(e for a, e in m if a in vars_top) for m in r.d.t}
+    if len(degs_n) > 1 or len(degs_d) > 1 or (r.n.t and degs_n != degs_d):
+        return False, f"not homogeneous of degree 0 (numerator degrees {sorted(degs_n)}, denominator degrees {sorted(degs_d)})"
+    dn, dd = _poly_total_derivative(r.n, vars_top), _poly_total_derivative(r.d, vars_top)
+    if not (dn * r.d == r.n * dd):
+        return False, 'not translation invariant (total derivative does not vanish)'
+    return True, ''
+
+
+def affine_equivariant(r: Rat, is_var) -> Tuple[bool, str]:
+    """does r map to c*r + d when every variable v is replaced by c*v + d?  <=>  r/v0-normalised... decided as:
+    homogeneous of degree 1 and total derivative == 1"""
+    vars_top = {a for a in r.atoms() if is_var(a)}
+    for a in r.atoms():
+        if a not in vars_top:
+            for q in _direct_rats(ATOMS.args(a)):
+                if any(is_var(b) for b in direct_atoms(q)):
+                    ok, why = affine_invariant(q, is_var)
+                    if not ok:
+                        return False, f"inside {show_atom(a)[:120]}: {why}"
+    degs_n = {sum(e for a, e in m if a in vars_top) for m in r.n.t}
+    degs_d = {sum(e for a, e in m if a in vars_top) for m in r.d.t}
+    if len(degs_n) != 1 or len(degs_d) != 1 or next(iter(degs_n)) - next(iter(degs_d)) != 1:
+        return False, f"not homogeneous of degree 1 (numerator {sorted(degs_n)}, denominator {sorted(degs_d)})"
+    dn, dd = _poly_total_derivative(r.n, vars_top), _poly_total_derivative(r.d, vars_top)
+    # (N/D)' = (N'D - ND')/D^2 == 1  <=>  N'D - ND' == D^2
+    if not (dn * r.d - r.n * dd == r.d * r.d):
+        return False, 'total derivative is not 1 (weights do not sum to one)'
+    return True, ''
